@@ -7,7 +7,7 @@
     module account is a blocked address) and [origin_ok_op] (nothing originates from the
     module address), for the bank sends of the paired denomination. *)
 From Coq Require Import ZArith NArith List Bool.
-From Canto Require Import Model.Erc20 Proofs.Erc20Proofs.
+From Canto Require Import Model.Erc20 Proofs.Erc20Proofs Proofs.Erc20Accounts.
 Import ListNotations.
 Open Scope Z_scope.
 
@@ -33,6 +33,24 @@ Theorem C14_receiver_module_account : forall s p o sender,
   wf_blocked (blocked s) -> is_convert_msg o = Some (sender, MOD) ->
   exec s (OnPair p o) = None.
 Proof. exact receiver_module_account. Qed.
+
+(* "third party" is about ACCOUNTS.  Accounts are numbers read from all the bytes of the address;
+   a 32-byte Cosmos account (legal as MsgConvertCoin.Sender and MsgConvertERC20.Receiver) whose
+   last 20 bytes are the other party's address has that party's EVM form (common.BytesToAddress)
+   and is nevertheless a third party: rejected while bank sends of the coin are disabled *)
+Theorem C14_alias_is_third_party : forall s p o sender receiver,
+  is_convert_msg o = Some (sender, receiver) ->
+  evm_form sender = evm_form receiver -> sender <> receiver ->
+  p_sendok (pairs s p) = false ->
+  exec s (OnPair p o) = None /\ deliver s (OnPair p o) = s.
+Proof. exact alias_is_third_party. Qed.
+
+(* with the other gates open and bank sends of the coin disabled, the gate is exactly
+   "sender and receiver are the same account" *)
+Theorem C14_send_gate_is_on_accounts : forall m bl ps sender receiver,
+  m = true -> p_enabled ps = true -> bl receiver = false -> p_sendok ps = false ->
+  minting_enabled m bl ps sender receiver = N.eqb sender receiver.
+Proof. exact send_gate_is_on_accounts. Qed.
 
 (* the list of gates is complete: a conversion message that succeeds passed all of them *)
 Theorem C14_msg_ok_gate_open : forall m h bl ps o sender receiver ps',
@@ -100,6 +118,15 @@ Example C14_example_closed :
   exec ex_state (OnPair 0 (ConvertCoin 1%N OTHER_MODULE 40)) = None /\
   exec ex_state (OnPair 1 (ConvertERC20 2%N MOD 5)) = None.
 Proof. exact ex_gate_closed. Qed.
+Example C14_example_alias :
+  (evm_form ALIAS2 = evm_form 2%N /\ ALIAS2 <> 2%N) /\
+  p_cbal (pairs (deliver ex_state (OnPair 0 (ConvertERC20 2%N ALIAS2 5))) 0) ALIAS2 = 5 /\
+  exec ex_nosend (OnPair 0 (ConvertERC20 2%N ALIAS2 5)) = None /\
+  exec ex_nosend (OnPair 0 (ConvertCoin ALIAS2 2%N 5)) = None /\
+  exec ex_nosend (OnPair 0 (ConvertERC20 2%N 2%N 5)) <> None.
+Proof.
+  exact (conj ex_alias_shares_evm_form (conj (proj1 ex_alias_open) ex_alias_closed)).
+Qed.
 Example C14_example_hook :
   let t := OnPair 0 (EvmTransfer 3%N MOD 20) in
   escrow (pairs (deliver ex_state t) 0) = 30 /\
@@ -110,6 +137,8 @@ Proof. exact ex_hook_open_vs_closed. Qed.
 Print Assumptions C14_msg_gate.
 Print Assumptions C14_receiver_gate.
 Print Assumptions C14_receiver_module_account.
+Print Assumptions C14_alias_is_third_party.
+Print Assumptions C14_send_gate_is_on_accounts.
 Print Assumptions C14_msg_ok_gate_open.
 Print Assumptions C14_hook_gate.
 Print Assumptions C14_ordinary_transfer.
